@@ -17,9 +17,10 @@ add("C01", "other",
 add("C02", "other",
     "Proved for all sizes and flags: compute_full returns NF(N) frames, each the documented sample range with symmetric reflection; _compute_frame's "
     "half-spectrum walk pairs every filter tap exactly once with full-spectrum bin (b0+j) mod D (conjugate-mirrored past Nyquist), with the doubling "
-    "for real banks, log floor and energy coefficient; the doubling's precondition (zero taps at DC/Nyquist, support inside the half spectrum) is "
-    "proved for the triangular bank from its constructor's invariant. Numeric agreement with an independent full-DFT oracle and the default-frame-"
-    "length clause are bounded." + MIX, TB)
+    "for real banks, log floor and energy coefficient; the constructor makes buffer, window and DFT size fit (len(window) = L <= D, every filter "
+    "truncated for width D); the doubling's precondition (zero taps at DC/Nyquist, support inside the half spectrum) is proved for the triangular "
+    "bank and for Fbank from their constructors' invariants. Numeric agreement with an independent full-DFT oracle (all signal dtypes, run-time "
+    "LOG_FLOOR_VALUE) and the default-frame-length clause are bounded." + MIX, TB)
 add("C03", "other",
     "Proved for every frame shift s >= 1, longest support M, DFT size D >= M + s - 1, chunk length and history (both frame styles): the overlap-save "
     "bookkeeping of compute_chunk (each filtered sample produced exactly once, in order, from a window of D samples ending at that sample; asserts, "
@@ -39,17 +40,21 @@ add("C04", "other",
     "compute_full raises exactly when started. Arbitrary call histories are exercised by the bounded stand-in (bit-exact comparison with fresh "
     "instances)." + MIX, TB)
 add("C05", "other",
-    "Proved for the triangular bank against the CONTRACT of ScalingFunction (strictly increasing, mutually inverse maps - C19): vertices equally spaced "
-    "on the scale, strictly increasing, from low_hz to min(high_hz, Nyquist); ValueError exactly for the stated bad ranges; the truncated response "
-    "equals the documented triangle at every bin. Gain, 3 dB / ERB / L2 constants and the other three banks are bounded (numeric)." + MIX, TB)
+    "Proved for the triangular bank and for Fbank against the CONTRACT of ScalingFunction (strictly increasing, mutually inverse maps - C19): "
+    "vertices equally spaced on the scale, strictly increasing, from low_hz to min(high_hz, Nyquist) (Fbank: to high_hz <= floor(rate/2)); "
+    "ValueError exactly for the stated bad ranges; the truncated response equals the documented triangle (Fbank: the square root of the triangle "
+    "in mel) at every bin. Gain, 3 dB / ERB / L2 constants and the Gabor / gammatone banks are bounded (numeric)." + MIX, TB)
 add("C06", "other",
-    "Proved for the triangular bank: start bin in [0, width), support within the half spectrum, taps equal to the documented triangle (so the "
-    "rebuilt response is the full response), zero at DC / Nyquist. The 2 x threshold clause for Gabor / gammatone, Fbank, half/full prefixes and "
-    "Hermitian symmetry are bounded, including reuse of one bank object across requests." + MIX, TB)
+    "Proved for the triangular bank and Fbank: start bin in [0, width), support within the half spectrum, taps equal to the documented response "
+    "(so the rebuilt response is the full response), zero at DC / Nyquist, from the constructors' invariants (also proved). The 2 x threshold "
+    "clause for Gabor / gammatone, half/full prefixes and Hermitian symmetry are bounded, including reuse of one bank object across requests "
+    "and boundary-valued frequency ranges." + MIX, TB)
 add("C07", "other",
-    "Bounded only: the property is numerical Fourier analysis (inverse DFT vs impulse response within 2 x threshold, tail magnitudes outside the "
-    "advertised supports); no VC decides it. The stand-in checks the statement's domain exactly, including the library's default configurations." + MIX,
-    "runtime contracts on the real functions (bounded stand-in; no obligation within reach decides the numerical clauses)")
+    "Proved: the `supports` of the triangular bank and of Fbank give one integer pair per filter with left < 0 < right (straddle sample 0), the two "
+    "sides differing by at most one sample, and the support formula is well defined (no division by zero, roots and fractional powers of "
+    "positive numbers only) for every increasing vertex sequence. Everything else of the property is numerical Fourier analysis (inverse DFT "
+    "vs impulse response within 2 x threshold, tail magnitudes outside the advertised supports, realness) and is decided by the bounded "
+    "stand-in on the statement's exact domain, including the library's default configurations." + MIX, TB)
 add("C08", "other",
     "Proved: alias_factory_subclass_from_arg over all argument shapes (instance / str / mapping with alias, name, both, neither): which constructor "
     "call is made with which keywords, KeyError when neither key is present, the caller's mapping never mutated. Registry resolution is exhaustive "
@@ -84,9 +89,14 @@ add("C14", "other",
     "framing modes and N >= L or N < L//2+1: frame count and empty shape, padded signal = spec frames, as_strided memory safety, the mirrored walk, "
     "per-column values and energy. float32, TorchScript, the wrappers and dither moments are bounded." + MIX, TB)
 add("C15", "other",
-    "Bounded only at this commit: Deltas and Stack against index-map oracles over ranks 1-4, axes of either sign, padding modes (including "
-    "width-dependent ones), dtypes, one instance reused across inputs; N-D tensor code is outside the 1-D array model of the VC generator (DESIGN 10.2)." + MIX,
-    "runtime contracts on the real functions against index-map oracles (bounded stand-in; deductive obligations not built for this property)")
+    "Proved for tensors of rank 1-3 (Deltas) / 2-3 (Stack), every legal axis / time_axis, symbolic sizes: Deltas.apply filters every 1-D row "
+    "exactly once; the stored row is out[t] = sum_j x_ext[t + j - (n-1)/2] * filt[j] of the row padded by (n-1)/2 on both sides with the "
+    "object's pad mode and keyword arguments, has the row's length, its dtype, and the result is [input, delta_1, ..] joined along target_axis "
+    "(concatenate) or a new axis there (stack); Stack.apply returns OUT[.., t, .., q*F + r, ..] = P[.., t*nv + q, .., r, ..] with nT = T // nv frames "
+    "(ceil with a pad mode, padding only at the end of the time axis) for the 2-D copy/transpose/reshape route (element map tracked) and the "
+    "N-D slicing route (q-th buffer = features[.., q:T:nv, ..], nv buffers joined along the feature axis); RuntimeError exactly when the axes "
+    "coincide; neither assigns to self. Assumed: numpy's pad / correlate / ndindex / reshape / concatenate contracts, the filters' odd lengths "
+    "(constructor). Values for all pad modes, dtypes, rank 4, and reuse of one instance are bounded." + MIX, TB)
 add("C16", "other",
     "Proved for vectors: _accumulate_vector adds (1, x, x^2) to the statistics (additivity), preserves the class invariant (integer count, "
     "non-negative squares) and raises ValueError before writing on a length mismatch; _apply_vector returns (x - mean) * k with the accumulated "
